@@ -47,6 +47,7 @@ MIN_REACH = {
     "crops_whose_function_is_not_saved": {"quick": 12, "thorough": 300},
     "crops_of_ten_and_more_batches": {"quick": 15, "thorough": 300},
     "subsets_grown_from_a_generator_or_an_array_of_ids": {"quick": 30, "thorough": 800},
+    "empty_subsets_grown": {"quick": 15, "thorough": 400},
     "pooled_grows_around_a_resow_that_replaced_the_function": {"quick": 12, "thorough": 200},
 }
 TIME_BUDGET = {"quick": 300, "thorough": 3000}
@@ -296,6 +297,10 @@ def run_case(ctx, case):
                         xyzpy.grow(i, crop=crop, verbosity=0)
                 elif op == "grow_subset":
                     ids = rng.sample(sorted(allb), rng.randint(1, B))
+                    if (case["hseed"] + len(done_hist)) % 5 == 0:
+                        # DEGENERATE: the subset is EMPTY (a filter that selected nothing): nothing is grown
+                        ids = []
+                        ctx.count("empty_subsets_grown")
                     # the ids as a list, a tuple, a one-shot generator (crop.grow(i for i in ... if ...)) or a numpy array
                     how_ = (len(ids) + case["hseed"]) % 4
                     if how_ in (2, 3):
@@ -484,6 +489,13 @@ def run_case(ctx, case):
             if not_grown:
                 ctx.violation(dict(case, at=list(done_hist)), "%s returned normally, but batches %s of the %s it was asked for were never grown" % (
                     op, not_grown, sorted(ids)), dict(sig, oracle="asked-for-is-grown", op=op))
+                nviol += 1
+        # ... and nothing it was not asked for
+        if err is None and op in ("grow", "grow_fn", "grow_subset") and not mpi_var:
+            unasked = sorted({i for (i, o_, _) in rec.events[ev0:] if o_ == "returned"} - set(ids))
+            if unasked:
+                ctx.violation(dict(case, at=list(done_hist)), "%s was asked for batches %s and also grew %s" % (op, sorted(ids), unasked),
+                              dict(sig, oracle="only-asked-for-is-grown", op=op))
                 nviol += 1
         # a grow writes only its own result file(s)
         after = listing()
